@@ -71,6 +71,9 @@ func newSQLGen(t *rapid.T) *sqlGen {
 		spacing:  rapid.SampledFrom([]int{0, 0, 1, 2}).Draw(t, "spacing"),
 		kinds:    map[string]bool{},
 		edges:    map[string]bool{},
+		// without an explicit bound the statement gets [now-1h, now]
+		startClock: true,
+		endClock:   true,
 	}
 }
 
@@ -114,8 +117,19 @@ func (g *sqlGen) text() string {
 	return sb.String()
 }
 
+// chance is true with (about) the given probability. rapid's integer generators are heavily
+// biased towards small and boundary values (IntRange(0,99) < 1 holds in 11% of the draws), so the
+// draw is hashed; 0 -- what the shrinker moves to -- always means "no".
 func (g *sqlGen) chance(percent int, label string) bool {
-	return rapid.IntRange(0, 99).Draw(g.t, label) < percent
+	u := rapid.Uint64().Draw(g.t, label)
+	return u != 0 && mix64(u)%100 < uint64(percent)
+}
+
+func mix64(x uint64) uint64 {
+	x += 0x9e3779b97f4a7c15
+	x = (x ^ (x >> 30)) * 0xbf58476d1ce4e5b9
+	x = (x ^ (x >> 27)) * 0x94d049bb133111eb
+	return x ^ (x >> 31)
 }
 
 // ---- identifiers ------------------------------------------------------------------------
@@ -144,8 +158,8 @@ var (
 	// characters for quoted strings: ASCII incl. JSON/HTML specials, the \" sequence that
 	// sql.Parse rewrites, control characters, multi byte runes, JS line separators.
 	quotedAlphabet = []string{"a", "b", "Z", "0", "7", " ", " ", ".", "-", "_", "*", "%", "|", "(", ")", "[", "]", "{", "}", ",",
-		"=", "<", ">", "&", "/", "\\", "\\\\", "\\\"", "\"", "`", "\n", "\t", "\r", "\x01", "\x7f", "é", "ü", "中", "文", " ",
-		" ", "\U0001F600", "�", "$", "#", "@", ":", ";", "+", "?", "^", "~", "!"}
+		"=", "<", ">", "&", "/", "\\", "\\\\", "\\\"", "\"", "`", "\n", "\t", "\r", "\x01", "\x7f", "\u00e9", "\u00fc", "\u4e2d", "\u6587",
+		"\u2028", "\u2029", "\U0001F600", "\ufffd", "$", "#", "@", ":", ";", "+", "?", "^", "~", "!"}
 )
 
 // quoted draws the content of a quoted identifier (no single quote inside).
@@ -158,7 +172,7 @@ func (g *sqlGen) quotedContent(label string, min int) string {
 	return sb.String()
 }
 
-// ident emits one `ident` (rule ident) drawn for the given role. nonEmpty forbids ''.
+// ident emits one `ident` (rule ident) drawn for the given role. nonEmpty forbids ”.
 func (g *sqlGen) ident(role string, pool []string, nonEmpty bool) {
 	g.w(g.identText(role, pool, nonEmpty))
 }
